@@ -796,6 +796,7 @@ func constants() []constant {
 		{"é", "string-non-ascii", false}, {" ", "string-u2028", false}, {"\xff", "string-invalid-utf8", false}, {"a b", "string-space", false},
 		{"(", "string-paren", false}, {")]", "string-paren", false}, {"&& ||", "string-operator", false}, {"Nothing", "string-keyword", false},
 		{"true", "string-keyword", false}, {"@.a", "string-path", false}, {long65, "string-long", false},
+		{allBytes(0x01, 0x1f), "string-all-controls", false}, {allBytes(0x20, 0x7e), "string-all-printable-ascii", false},
 		{rx("a"), "regex", false}, {rx("a.c"), "regex", false}, {rx("a/b"), "regex-slash", false}, {rx(`a\.b`), "regex-backslash", false},
 		{rx("^a$"), "regex", false}, {rx("[a-c]+"), "regex-class", false}, {rx("(a|b)"), "regex-group", false}, {rx("a'b"), "regex-quote", false},
 		{rx(""), "regex-empty", false}, {rx(`\/`), "regex-escaped-slash", false},
